@@ -216,6 +216,24 @@ class Gen:
                     [log_stmt(call('stringNew', call('arrayNew', call(call_name, num(2))))) for call_name in ['curried'] * 0] + \
                     [('assign', 'bound%d' % i, call('curried')) for i in range(r.randint(2, 3))] + \
                     [log_stmt(call('stringNew', call('arrayNew', call('bound0', num(2)), call('bound1', num(3)))))]
+        if r.random() < 0.15:
+            # a partial application of a partial application: the arguments are bound in positional order, inner ones first
+            f = r.choice(self.funcs)
+            at = r.randint(1 + nfun, len(prog))
+            prog[at:at] = [('assign', 'inner', call('systemPartial', ('var', f[0]), sq('i1'), sq('i2'))),
+                           ('assign', 'outer', call('systemPartial', ('var', 'inner'), sq('o1'))),
+                           ('assign', 'outer2', call('systemPartial', ('var', 'outer'))) if r.random() < 0.3 else ('assign', 'outer2', ('var', 'outer')),
+                           log_stmt(call('stringNew', call('arrayNew', call('outer', sq('x')), call('outer2', sq('x'), sq('y')), call('inner', num(7)))))]
+        if r.random() < 0.12:
+            # a comparison function that sorts itself (with another comparison function) while the outer sort is under way
+            rows = [call('arrayNew', *[num(x) for x in r.sample(range(10), 2)]) for _ in range(r.randint(3, 5))]
+            at = r.randint(1 + nfun, len(prog))
+            prog[at:at] = [('func', 'descCmp', ['aa', 'bb'], False, [('return', ('bin', '-', ('var', 'bb'), ('var', 'aa')))]),
+                           ('func', 'byLargest', ['ra', 'rb'], False, [
+                               ('assign', 'sa', call('arraySort', call('arrayCopy', ('var', 'ra')), ('var', 'descCmp'))),
+                               ('assign', 'sb', call('arraySort', call('arrayCopy', ('var', 'rb')), ('var', 'descCmp'))),
+                               ('return', ('bin', '-', call('arrayGet', ('var', 'sa'), num(0)), call('arrayGet', ('var', 'sb'), num(0))))]),
+                           log_stmt(call('stringNew', call('arraySort', call('arrayNew', *rows), ('var', 'byLargest'))))]
         if len(self.funcs) >= 2 and r.random() < 0.3:
             # an argument whose evaluation re-binds the very name being called: the call uses the binding in force when the call happens
             f0, f1 = r.sample([f[0] for f in self.funcs], 2) if len({f[0] for f in self.funcs}) >= 2 else (self.funcs[0][0], self.funcs[0][0])
